@@ -8,6 +8,9 @@ from vf import hostframe, snapcheck
 from vf.rig import Rig
 
 
+_thread_counter = [0]
+
+
 class Workdir:
     def __init__(self, tag='vf'):
         self.path = os.path.realpath(tempfile.mkdtemp(prefix='%s_' % tag))
@@ -69,7 +72,9 @@ class FrameCase:
                 self.thread_exc = e
 
         def go():
-            t = threading.Thread(target=body, name='vf-host')
+            _thread_counter[0] += 1
+            self.thread_name = 'vf-host-%d' % _thread_counter[0]   # thread ids get reused, names here never are
+            t = threading.Thread(target=body, name=self.thread_name)
             t.start()
             t.join(timeout)
             return t.is_alive()
